@@ -47,7 +47,8 @@ func c17(c *wk.Ctx) {
 func c17one(c *wk.Ctx, i int, rng *rand.Rand) {
 	var progress int64
 	a, b := ctl.Pair("endpoint", "peer", &progress)
-	a.ReadChunk = func(rem int) int { return 1 + rng.Intn(64) }
+	rrng := rand.New(rand.NewSource(rng.Int63())) // used by the endpoint's reader goroutine only
+	a.ReadChunk = func(rem int) int { return 1 + rrng.Intn(64) }
 	ep := qnet.NewEndPoint(a)
 
 	var mu sync.Mutex
